@@ -63,3 +63,133 @@ def link_counter_from_pages(case, page_lrus):
         for s, t, w in page_links(case, p, include_inbound=False):
             c[(s, t)] += w
     return c
+
+
+def resolution_of_pages(case):
+    """(pages dict lru->crawled as enumerated, R dict lru->weid or None, prefix of each page or None)"""
+    pg = pages(case)
+    R, P = {}, {}
+    for l, _ in pg:
+        w, p = resolve(case, l)
+        R[l] = w
+        P[l] = p
+    return dict(pg), R, P
+
+
+def enumerated_webentities(case):
+    """weid -> sorted prefixes, from the real prefix enumeration"""
+    d = {}
+    for p, w in prefix_entries(case):
+        d.setdefault(w, []).append(p)
+    for w in d:
+        d[w].sort()
+    return d
+
+
+def all_page_links(case, page_lrus):
+    """[(s,t,w)] every page-level link once (from the outbound+internal side of each page)"""
+    out = []
+    for p in page_lrus:
+        out += page_links(case, p, include_inbound=False)
+    return out
+
+
+# ---------------------------------------------------------------------------------------------------------
+# full observation of an index through its API, as one comparable value (used by the differential checks)
+
+def _k(x):
+    return repr(x)
+
+
+def snapshot(t, lrus):
+    """every observable answer of Traph `t` (a plain traph object, no Case), normalised where the API leaves the
+    order unspecified.  Exceptions other than TraphException propagate to the caller."""
+    snap = {}
+    pg = [(bytes(l), bool(n.is_crawled())) for n, l in t.pages_iter()]
+    snap["pages"] = sorted(pg)
+    snap["count_pages"] = t.count_pages()
+    snap["count_crawled_pages"] = t.count_crawled_pages()
+    snap["count_links"] = float(t.count_links())
+    snap["dfs"] = sorted(bytes(l) for n, l in t.lru_trie.dfs_iter())
+    pre = [(bytes(l), n.webentity()) for n, l in t.webentity_prefix_iter()]
+    snap["prefixes"] = sorted(pre)
+    snap["links_out"] = sorted((bytes(a), bytes(b)) for a, b in t.links_iter(out=True))
+    snap["links_in"] = sorted((bytes(a), bytes(b)) for a, b in t.links_iter(out=False))
+    pl = {}
+    for p, _ in pg:
+        pl[p] = sorted((bytes(a), bytes(b), w) for a, b, w in t.get_page_links(p))
+    snap["page_links"] = pl
+    res = {}
+    for q in sorted(set(lrus) | set(p for p, _ in pg)):
+        try:
+            w = t.retrieve_webentity(q)
+        except TraphException:
+            w = None
+        try:
+            p = t.retrieve_prefix(q)
+        except TraphException:
+            p = None
+        pot = t.get_potential_prefix(q)
+        res[q] = (w, bytes(p) if p else None, bytes(pot) if pot else None)
+    snap["resolution"] = res
+    wes = {}
+    for p, w in pre:
+        wes.setdefault(w, []).append(p)
+    per = {}
+    for w, ps in sorted(wes.items()):
+        ps.sort()
+        d = {}
+        d["pages"] = sorted((bytes(g["lru"]), bool(g["crawled"])) for g in t.get_webentity_pages(w, ps))
+        d["crawled_pages"] = sorted(bytes(g["lru"]) for g in t.get_webentity_crawled_pages(w, ps))
+        d["pagelinks"] = sorted((bytes(a), bytes(b), c) for a, b, c in t.get_webentity_pagelinks(
+            w, ps, include_inbound=True, include_internal=True, include_outbound=True))
+        d["parents"] = sorted(t.get_webentity_parent_webentities(w, ps))
+        d["children"] = sorted(t.get_webentity_child_webentities(w, ps))
+        d["outlinks"] = sorted(t.get_webentity_outlinks(w, ps), key=_k)
+        d["inlinks"] = sorted(t.get_webentity_inlinks(w, ps), key=_k)
+        seq = []
+        tok = None
+        for _ in range(len(pg) + 2):
+            r = t.paginate_webentity_pages(w, ps, page_count=2, pagination_token=tok)
+            seq += [(bytes(g["lru"]), bool(g["crawled"])) for g in r["pages"]]
+            if r["done"]:
+                break
+            tok = r["token"]
+        d["paginated_pages"] = seq
+        ml = t.get_webentity_most_linked_pages(w, ps, pages_count=1000)
+        d["most_linked"] = sorted((g["indegree"], bytes(g["lru"])) for g in ml)
+        per[w] = d
+    snap["webentities"] = per
+    net = {}
+    for o in (True, False):
+        for auto in (True, False):
+            g = t.get_webentities_links(out=o, include_auto=auto)
+            net[(o, auto)] = {a: dict(d) for a, d in g.items() if d}
+            gs = t.get_webentities_links_slow(out=o, include_auto=auto)
+            net[(o, auto, "slow")] = {a: dict(d) for a, d in gs.items() if d}
+    snap["network"] = net
+    if snap["dfs"]:
+        m = t.metrics()
+        snap["metrics"] = {"lru_trie": m["lru_trie"], "link_store": m["link_store"], "links": m["links"]}
+    return snap
+
+
+def diff_snapshots(a, b):
+    """first difference between two snapshots as text, or None"""
+    for k in a:
+        if a[k] != b.get(k):
+            va, vb = a[k], b.get(k)
+            if isinstance(va, dict) and isinstance(vb, dict):
+                for kk in sorted(set(va) | set(vb), key=_k):
+                    if va.get(kk) != vb.get(kk):
+                        return "%s[%r]: %r  vs  %r" % (k, kk, _cut(va.get(kk)), _cut(vb.get(kk)))
+            return "%s: %r  vs  %r" % (k, _cut(va), _cut(vb))
+    for k in b:
+        if k not in a:
+            return "%s only in the second" % k
+    return None
+
+
+def _cut(x, n=400):
+    s = repr(x)
+    return s if len(s) <= n else s[:n] + "..."
